@@ -68,6 +68,11 @@ def impl_cidr_merge(items, forms=None):
                 o = netaddr.IPAddress(it[2], it[1])
         objs.append(o)
     out = _nets(netaddr.cidr_merge(objs))
+    import zlib
+    form = zlib.crc32(repr(items).encode()) % 4
+    if form:     # the same items as a tuple, a generator or a one-shot iterator
+        alt = _nets(netaddr.cidr_merge(tuple(objs) if form == 1 else ((o for o in objs) if form == 2 else iter(objs))))
+        assert alt == out, "cidr_merge depends on the container form"
     if all(it[0] == "n" for it in items) and len(items) <= 6:
         flat = [a for n in netaddr.cidr_merge(objs) for a in ([] if n.size > 64 else list(n))]
         if sum(n[2] >= gens.W[n[0]] - 6 for n in out) == len(out):
